@@ -348,18 +348,18 @@ func poisonsBtc(r *vgen.Rng) []Dep {
 	addr := fmt.Sprintf("0x%x", r.Bytes(20))
 	var out []Dep
 	mk := func(script string) { out = append(out, Dep{Kind: "btc", Dest: 2, Data: script}) }
-	mk("")         // OP_RETURN of 0 bytes
-	mk("6a")       // 1 byte
-	mk("6a00")     // 2 bytes: empty data, no '_'
+	mk("")     // OP_RETURN of 0 bytes
+	mk("6a")   // 1 byte
+	mk("6a00") // 2 bytes: empty data, no '_'
 	mk("6a01" + hex.EncodeToString([]byte("_")))
-	mk("zz")       // ill-formed hex
-	mk("6a2")      // odd-length hex
-	mk(btcScript(addr))              // no '_'
-	mk(btcScript(addr + "_"))        // empty domain
-	mk(btcScript(addr + "_x"))       // non-numeric domain
-	mk(btcScript(addr + "_256"))     // domain does not fit 8 bits
+	mk("zz")                     // ill-formed hex
+	mk("6a2")                    // odd-length hex
+	mk(btcScript(addr))          // no '_'
+	mk(btcScript(addr + "_"))    // empty domain
+	mk(btcScript(addr + "_x"))   // non-numeric domain
+	mk(btcScript(addr + "_256")) // domain does not fit 8 bits
 	mk(btcScript(addr + "_-1"))
-	mk(btcScript(addr + "_1_2"))     // a third part
+	mk(btcScript(addr + "_1_2")) // a third part
 	mk(btcScript(addr + "_18446744073709551616"))
 	mk(btcScript("_"))
 	mk(btcScript("nothex_2"))
